@@ -11,6 +11,7 @@
 package runtime
 
 import (
+	"bytes"
 	"fmt"
 	"reflect"
 	"runtime"
@@ -1447,12 +1448,20 @@ func specAsFatal(e any) *fatalError { p, _ := e.(*fatalError); return p }
 // Text: txt is an element of Function.Text, which the emitter never leaves empty
 // (requires, proved on the emitter side under C15).
 //@ func (*renderer).Text
-//@   props C05 C13
+//@   props C05 C13 C07
 //@   opt writerprop C13
 //@   requires len(txt) > 0
 //@   requires !wfailed(r.out)
 //@   ensures[C13] result != nil ==> wfailed(r.out) && result == werr(r.out)
 //@   ensures[C13] result == nil ==> !wfailed(r.out)
+//@   ensures[C07] inURL && !isSet && old(r.inURL) && old(r.query) ==> r.query
+//@   ensures[C07] inURL && isSet && old(r.inURL) && old(r.query) && !bytes.ContainsRune(txt, ',') ==> r.query
+
+var _ = bytes.ContainsRune
+
+// (C07: which escaper a value shown in a URL gets depends on whether the URL is
+// in its query part. Static text never leaves the query part, except that in a
+// set of URLs - srcset - a comma starts the next URL.)
 
 // A strWriterWrapper forwards every write unchanged to the writer it wraps, so it
 // is the same abstract writer: wkey is the verifier's identity of a writer.
